@@ -38,27 +38,19 @@ def withdraw_rule(rep, r1, m, SIG, only=None):
             a = [cx.canon(z) for z in kids(c)[1:]]
             if not (a[0] == action and a[1] == "cmb_process_current()"):
                 continue
-            conds = []
-            for x in inv.enclosing_chain(f, c):
-                if x["kind"] == "IfStmt":
-                    in_then = any(y is c for y in walk(kids(x)[1]))
-                    conds.append((cx.canon(kids(x)[0]), in_then, x))
             covers_all = True
-            for ctext, in_then, x in conds:
-                c0 = strip(kids(x)[0], casts=True)
+            succ = SIG["CMB_PROCESS_SUCCESS"]
+            for cd in inv.dominating_conditions(cx, f, c):
                 ok_c = False
-                if c0["kind"] == "BinaryOperator" and c0.get("opcode") in ("!=", "=="):
-                    sides = [cx.canon(z) for z in kids(c0)]
-                    vals = [common.sigval(t_) for t_ in sides]
-                    is_succ = any(v_ == SIG["CMB_PROCESS_SUCCESS"] for v_ in vals if v_ is not None)
-                    if is_succ and ((c0["opcode"] == "!=" and in_then) or (c0["opcode"] == "==" and not in_then)):
-                        ok_c = True
+                mm = re.fullmatch(r"\((.+) != (\S+)\)", cd) or re.fullmatch(r"!\((.+) == (\S+)\)", cd)
+                if mm and (common.sigval(mm.group(2)) == succ or common.sigval(mm.group(1)) == succ):
+                    ok_c = True              # "resumed with something other than success"
                 # conditions about queue membership (already granted / still queued) do not restrict the signal codes
-                if re.search(r"cmi_hashheap_is_enqueued|cmi_hashheap_cancel|cmi_hashheap_remove|found", ctext):
+                if re.search(r"cmi_hashheap_is_enqueued|cmi_hashheap_cancel|cmi_hashheap_remove|found", cd):
                     ok_c = True
                 if not ok_c:
                     covers_all = False
-                    why = "it is withdrawn only under '%s'%s" % (ctext, "" if in_then else " being false")
+                    why = "it is withdrawn only under '%s'" % cd
             if covers_all:
                 good = True
         r1.instance("%s withdraws a pending %s on every non-success return: %s" % (fn, action, good))
@@ -118,7 +110,9 @@ def rules(rep, m):
             paths["abn"] += 1
             for rg in pre:
                 names, pred = INVERSES[rg[1]]
-                invs = [c for c in calls if c[1] in names and pred(rg[2], c[2])]
+                invs = [c for c in calls if c[1] in names and
+                        (pred(rg[2], c[2]) or (rg[1] == "cmi_hashheap_enqueue" and c[2] and rg[2] and
+                                               common.same_object(m, c[2][0], rg[2][0])))]
                 r1.instance("%s: %s(%s) undone on abnormal path by %s" % (bn, rg[1], ", ".join(rg[2][:3]), [c[1] for c in invs]))
                 if invs:
                     r1.ok()
